@@ -12,6 +12,8 @@ impl<A: Actor> Spawner<A> for TokioSpawner {
     where
         F: Future<Output = crate::DynResult<A>> + Send + 'static,
     {
+        #[cfg(feature = "verif")]
+        use crate::verif::rt as tokio;
         let handle = Arc::new(async_lock::Mutex::new(Some(tokio::spawn(future))));
 
         ActorHandle::new(move || -> JoinFuture<A> {
@@ -34,10 +36,14 @@ impl<A: Actor> Spawner<A> for TokioSpawner {
     where
         F: Future<Output = ()> + Send + 'static,
     {
+        #[cfg(feature = "verif")]
+        use crate::verif::rt_aux as tokio;
         tokio::spawn(future);
     }
 
     async fn sleep(duration: Duration) {
+        #[cfg(feature = "verif")]
+        use crate::verif::rt as tokio;
         tokio::time::sleep(duration).await;
     }
 }
